@@ -418,8 +418,8 @@ def _alias_count(cmd):
 
 
 def shape_f4(case):
-    """>= 3 stages with an external big producer that has at least two stages after it."""
-    return any("big" in cmd["stages"][:-2] for cmd in case["cmds"] if len(cmd["stages"]) >= 3)
+    """>= 3 stages with a big producer that has at least two stages after it."""
+    return any(any(x in PRODUCERS for x in cmd["stages"][:-2]) for cmd in case["cmds"] if len(cmd["stages"]) >= 3)
 
 
 def shape_f7(case):
